@@ -67,7 +67,8 @@ def render(toks):
         if t["k"] == "int":
             out.append("%.3f" % (t["n"] / 1000.0) if in_mass else str(t["n"]))
         elif t["k"] == "str":
-            out.append({"bare": t["s"], "single": "'%s'" % t["s"], "double": '"%s"' % t["s"]}[t["q"]])
+            out.append({"bare": t["s"], "single": "'%s'" % t["s"], "double": '"%s"' % t["s"],
+                        "escaped": "'%s'" % t["s"].replace("\\", "\\\\").replace("'", "\\'")}[t["q"]])
         else:
             if t["s"] == "mass":
                 in_mass = True
